@@ -11,6 +11,7 @@ fixtures byte for byte) and checked with an independent reader on every run.
 -/
 import RichchkModel.Lemmas.PassThrough
 import RichchkModel.Lemmas.CodecLemmas
+import RichchkModel.Lemmas.RichRoundTrip
 namespace Richchk.Props.C02
 open Richchk
 
@@ -40,5 +41,26 @@ theorem c02_hitpoints_exact (raw : Nat) : encodeHp (decodeHp raw) = raw := hp_en
 
 theorem c02_flags_keep_defined_bits (c : FlagCodec) (hc : c.OK) (n : Nat) :
     c.encode (c.decode n) = n % 2 ^ c.fields.length := flags_encode_decode c hc n
+
+/-- **the trigger section keeps its number of triggers** (hence, with `c11_trigger_shape` and the
+byte layer, its size): every decoded trigger becomes one rich trigger, every rich trigger one
+emitted trigger, in order -/
+theorem c02_trigger_count_preserved {cfg : RichCfg} {dctx : DecCtx} {ectx : EncCtx} {ts : List Trigger}
+    {rts : List RTrigger} {out : List Trigger}
+    (hd : mapR (decodeTrigger cfg dctx) ts = .ok rts) (he : mapR (encodeTrigger cfg ectx) rts = .ok out) :
+    out.length = ts.length := by
+  rw [mapR_length he, mapR_length hd]
+
+/-- **the location table, unit-property table and sound table are rewritten exactly** when they are
+in editor form (C03 section identities): restated here because "every section keeps its size, every
+numeric setting its value" is the C02 reading of the same facts -/
+theorem c02_uprp_values_kept (cfg : RichCfg) (recs : List (List Nat))
+    (hlen : recs.length = cfg.cuwpSlots) (hw : ∀ r ∈ recs, r.length = 10) (howner : ∀ r ∈ recs, r.getD 2 0 = 0)
+    (hvs : ∀ r ∈ recs, (cfg.flagsOf "cuwp_valid_special").encode ((cfg.flagsOf "cuwp_valid_special").decode (r.getD 0 0)) = r.getD 0 0)
+    (hvu : ∀ r ∈ recs, (cfg.flagsOf "cuwp_valid_unit").encode ((cfg.flagsOf "cuwp_valid_unit").decode (r.getD 1 0)) = r.getD 1 0)
+    (hfl : ∀ r ∈ recs, (cfg.flagsOf "cuwp_unit").encode ((cfg.flagsOf "cuwp_unit").decode (r.getD 8 0)) = r.getD 8 0)
+    (h6 : ∀ n, ((cfg.flagsOf "cuwp_unit").decode n).length = 6) :
+    encodeUprp cfg (decodeUprp cfg recs) = recs :=
+  uprp_rich_roundtrip cfg recs hlen hw howner hvs hvu hfl h6
 
 end Richchk.Props.C02
